@@ -46,6 +46,12 @@ impl<'a> ParseState<'a> {
             // This should be optimized out in most cases
             panic!("String length overrun in advance()")
         };
+        #[cfg(peginator_verif)]
+        assert!(
+            self.partial_string.is_char_boundary(length),
+            "peginator_verif: advance({}) is not on a char boundary",
+            length
+        );
         Self {
             start_index: self.start_index + length,
             // SAFETY:
